@@ -2238,6 +2238,7 @@ func main() {
 		os.Exit(0)
 	}
 	f := common.ParseFlags()
+	plantHostCanaries() // hostenv.go: the runner's own environment defines the names no script assigns
 	res := common.NewResult("C02", f.Tier, f.Seed)
 	if f.Work == "" {
 		d, _ := os.MkdirTemp("", "tsparse-work-")
@@ -2369,6 +2370,9 @@ func main() {
 	nHistories := rn.histories(r.Fork())
 	t2 := time.Now()
 	nListings := rn.listings(r.Fork())
+	t3 := time.Now()
+	nHost := rn.hostScenario()
+	res.Notes = append(res.Notes, fmt.Sprintf("host environment (hostenv.go): %d canary variables of the runner's own environment (planted names incl. every short name the generators reference unassigned, and the regular names of the real host environment), each referenced by one script in every expansion position (words, env arguments, ts.Getenv, env NAME, [exec:] and Params.Condition, cmpenv template, archive entry name, environment of exec / ts.Exec programs), then assigned (the script's value wins); oracles host-env-invisible, host-env-not-in-child, host-untouched (environment and directory of the runner during and after the run); %.1fs", nHost, time.Since(t3).Seconds()))
 	res.Notes = append(res.Notes, fmt.Sprintf("script level: long lines %.1fs, histories %.1fs, listings %.1fs", t1.Sub(t0).Seconds(), t2.Sub(t1).Seconds(), time.Since(t2).Seconds()))
 
 	// 4. the standard-library models on their own
@@ -2386,8 +2390,9 @@ func main() {
 		"%d scripts with one cmp/cmpenv line each (second file a template with $K ${K} ${K@R} $$ and exotic forms, first file the expansion known by construction / the raw text / a perturbation / a reference itself, verdict by construction and against do_cmd_cmp) and %d scripts passing variable-held file names (blanks, quotes, $, #, tab, CR) to cp / exists / stdin, with a must-fail control; env K=$OTHER chains are followed by the latest-wins tracker. "+
 		"Script level: %d multi-line scripts with a long line first / in the middle / last (one plain or quoted word, several long words, thousands of words, a long comment, a long phase comment or blank line, a long env line, long values through ts.Setenv and ${VAR} / ${VAR@R}; 1 KiB ... 1 MiB around 4 KiB and 64 KiB; CRLF; last line without LF) with the model-free oracle every-line-runs (the rec command is seen once per line, in order, with the words known by construction), script_lines_tr of the model on every text, and run_script of the model on the long-line scripts the extracted tokenizer handles in linear time; "+
 		"%d histories of 10-23 steps (env K=V repeated in non-sorted order, several assignments per line, env NAME, the argument-less env, ts.Setenv, cd, exists / grep / cmp / stdout / [exec:] lines that only read, six Setup modes, one run in five with testing.Verbose, i.e. with the listing at the start) where after EVERY step $K ${K} ${K@R} ts.Getenv and the environment / PWD of an executed program are compared with the latest assignment known by construction (history-latest-wins) and with the model; %d histories ending in the listing, read from T.Log (listing-shows-latest, env_listing); every script is also read as a history by the model (histholds: hrun reproduces the state, history_holds is true). "+
-		"Dimensions of CONVENTIONS addendum 4: 1 state carried between calls (histories; every script of a batch shares one RunT call and the package-level execCache), 4 sizes past internal limits (lines and values past 4 KiB / 64 KiB / 1 MiB, thousands of words), 6 data that looks like syntax (CR / CRLF, NUL, invalid UTF-8, %%, quotes, $, # in values and words), 7 host environment (PATH / HOME / the variables of Params.Setup are part of the compared child environment), 8 (a changed source shape is reported by the regenerated constants / fingerprints while every oracle still runs); 2, 3, 5 do not apply to a pure tokenizer / environment property. "+
+		"Dimensions of CONVENTIONS addendum 4: 1 state carried between calls (histories; every script of a batch shares one RunT call and the package-level execCache), 4 sizes past internal limits (lines and values past 4 KiB / 64 KiB / 1 MiB, thousands of words), 6 data that looks like syntax (CR / CRLF, NUL, invalid UTF-8, %%, quotes, $, # in values and words), 7 host environment (PATH / HOME / the variables of Params.Setup are part of the compared child environment; the runner's own environment defines, for the whole run, every short name the generators reference without assigning it plus dedicated canaries, so a reference to an unassigned name that expands to a host value fails the existing oracles too; hostenv.go references every such name and every regular name of the real host environment in every expansion position and checks that the runner's environment and directory are untouched by env / ts.Setenv / cd), 8 (a changed source shape is reported by the regenerated constants / fingerprints while every oracle still runs); 2, 3, 5 do not apply to a pure tokenizer / environment property. "+
 		"A line is non-trivial when it contains a quote, $, #, CR or tab; distinct = distinct line text", nScripts, nCases, nStd, nCmp, nArgs, nLongScripts, nHistories, nListings)
+	rn.srcStats() // srcstats.go: the translated source, run beside the model by the driver
 	res.Write(f.Out)
 }
 
@@ -2417,6 +2422,9 @@ func (rn *runner) replay(v common.Violation) {
 		return
 	case "listing":
 		rn.replayListing(v)
+		return
+	case "host-env":
+		rn.replayHost(v)
 		return
 	}
 	if arch, ok := v.Input["archive"]; ok {
